@@ -1353,6 +1353,12 @@ class Data(BaseCartesianData):
                                            for key, value in self._components.items())
             changed = True
 
+            # Derived components that are computed from this component need
+            # to refer to the new ID, otherwise they can't be computed anymore
+            for component in self._components.values():
+                if isinstance(component, DerivedComponent):
+                    component.link.replace_ids(old, new)
+
         try:
             index = self._pixel_component_ids.index(old)
             self._pixel_component_ids[index] = new
